@@ -47,9 +47,19 @@ class FakeSock:
         pass
 
     def bind(self, ha):
+        self.kind = 'listen'        # a descriptor the endpoint means to listen on, whether or not bind succeeds
+        plan = getattr(self.net, 'bind_plan', None)
+        if plan:
+            r = plan.pop(0)
+            if r == 'bind':
+                raise OSError(errno.EADDRINUSE, 'Address already in use')
+            if r == 'listen':
+                self._listen_fails = True
         self.local = ha
 
     def listen(self, n):
+        if getattr(self, '_listen_fails', False):
+            raise OSError(errno.EADDRINUSE, 'Address already in use')
         self.kind = 'listen'
 
     def getsockname(self):
